@@ -129,6 +129,16 @@ Theorem C01B_lower_same_nets fl d (f : bnode -> bnode) (nodes : list bnode) :
 Proof. intros Hn Hp. exact (lower_same_nets fl d Hn Hp f nodes). Qed.
 Print Assumptions C01B_lower_same_nets.
 
+(* 6b. the executable labels agree, with hypotheses that are all DECIDABLE on the design (evaluated by Corr/C01B.v:chk_lower on
+       every generated design): the naming is injective, Pair connections have members of the port's width, and every node on
+       the orbits computed from the terminals is a node of the design.  No closed node set, no totality assumption. *)
+Theorem C01B_lower_labels fl d fuel ts os :
+  names_ok fl d = true -> pairs_ok d = true ->
+  traverse (borbit d fuel) ts = Ok os -> forallb (forallb (bnode_ok d)) os = true ->
+  labels (lower fl d) fuel (map (phi fl) ts) = blabels d fuel ts.
+Proof. intros Hn Hp. exact (labels_lower_checked fl d Hn Hp fuel ts os). Qed.
+Print Assumptions C01B_lower_labels.
+
 (* 6a. ... and the executable labels agree: nets (lower d) ~ nets_b d on any list of terminals inside such a node set.
        PARTIAL in one respect (see notes/C01B.md): that the nodes reachable from the terminals of a VALID design (wf_bdesign)
        form such a closed, typed set on which bstep never fails is a hypothesis here, not derived from wf_bdesign; the
@@ -211,9 +221,10 @@ Fixpoint us_join (l : list name) : name := match l with [] => "" | x :: r => sap
 Definition us_name (b : name) (q : mpath) : name := sapp b (us_join q).
 Example C01B_ex_lowering :
   names_ok dot_name ex0 = true /\ pairs_ok ex0 = true /\ forallb (bnode_ok ex0) ex0_terms = true /\
+  (exists os, traverse (borbit ex0 (bdesign_fuel ex0)) ex0_terms = Ok os /\ forallb (forallb (bnode_ok ex0)) os = true) /\
   labels (lower dot_name ex0) (bdesign_fuel ex0) (map (phi dot_name) ex0_terms) = Ok [0; 1; 2; 0; 1; 2] /\
   names_ok us_name ex0 = false.
-Proof. repeat split; vm_compute; reflexivity. Qed.
+Proof. repeat split; try (vm_compute; reflexivity). eexists. split; vm_compute; reflexivity. Qed.
 
 (* Pairs: a Diff bundle, anonymous bundles {p, n}, a scalar, a no-connect *)
 Definition ex_pair : bdesign :=
